@@ -13,7 +13,7 @@ import (
 
 type dirEffect struct {
 	pair *dirEffect // first half of the same rename (shares its persistence bit: rename is atomic)
-	idx  int // event index
+	idx  int        // event index
 	dir  int
 	name string
 	val  int // inode id, 0 = absent
@@ -221,101 +221,107 @@ func registerPersist(p *Program) {
 				tmpID = ev.Ino
 			}
 		}
-		ts := in.ts
-		targets := []string{user + ".user", user + ".admin"}
-		isTarget := func(n string) bool { return n == targets[0] || n == targets[1] }
-		// structural obligations (no solver variables): in-place modification and bystanders
-		inPlace := ts.True
-		bystander := ts.True
-		for _, ev := range trace {
-			if ev.Err != "" {
-				continue
+		in.crashAnalyse(trace, baseID, init, tmpID, preexisting, user, op, durable)
+		return nil
+	}
+}
+
+// crashAnalyse discharges the crash / durability obligations for one operation's event trace.
+// Used on the engine's vfs trace and, for native confirmation, on a parsed strace log.
+func (in *Interp) crashAnalyse(trace []fsEvent, baseID int, init map[string]int, tmpID int, preexisting map[int]string, user, op string, durable bool) {
+	ts := in.ts
+	targets := []string{user + ".user", user + ".admin"}
+	isTarget := func(n string) bool { return n == targets[0] || n == targets[1] }
+	// structural obligations (no solver variables): in-place modification and bystanders
+	inPlace := ts.True
+	bystander := ts.True
+	for _, ev := range trace {
+		if ev.Err != "" {
+			continue
+		}
+		switch ev.Op {
+		case "write", "truncate":
+			if n, ok := preexisting[ev.Ino]; ok && n != ".tmp" && (ev.Op == "truncate" || ev.N > 0) {
+				inPlace = ts.False
 			}
-			switch ev.Op {
-			case "write", "truncate":
-				if n, ok := preexisting[ev.Ino]; ok && n != ".tmp" && (ev.Op == "truncate" || ev.N > 0) {
-					inPlace = ts.False
-				}
-			case "create", "mkdir", "unlink", "symlink":
-				if ev.Dir == baseID && !isTarget(nameKey(ev.Name)) && nameKey(ev.Name) != ".tmp" {
+		case "create", "mkdir", "unlink", "symlink":
+			if ev.Dir == baseID && !isTarget(nameKey(ev.Name)) && nameKey(ev.Name) != ".tmp" {
+				bystander = ts.False
+			}
+			if ev.Dir != baseID && ev.Dir != tmpID {
+				bystander = ts.False
+			}
+		case "rename":
+			for _, dn := range [][2]interface{}{{ev.Dir, nameKey(ev.Name)}, {ev.Dir2, nameKey(ev.Name2)}} {
+				d, n := dn[0].(int), dn[1].(string)
+				if d == baseID && !isTarget(n) && n != ".tmp" {
 					bystander = ts.False
 				}
-				if ev.Dir != baseID && ev.Dir != tmpID {
+				if d != baseID && d != tmpID {
 					bystander = ts.False
-				}
-			case "rename":
-				for _, dn := range [][2]interface{}{{ev.Dir, nameKey(ev.Name)}, {ev.Dir2, nameKey(ev.Name2)}} {
-					d, n := dn[0].(int), dn[1].(string)
-					if d == baseID && !isTarget(n) && n != ".tmp" {
-						bystander = ts.False
-					}
-					if d != baseID && d != tmpID {
-						bystander = ts.False
-					}
 				}
 			}
 		}
-		in.doAssert("crash: hash files are never modified in place", inPlace, "")
-		in.doAssert("crash: only the target's names and the work area are touched", bystander, "")
-		for _, power := range []bool{false, true} {
-			tag := "kill"
-			if power {
-				tag = "powerloss"
+	}
+	in.doAssert("crash: hash files are never modified in place", inPlace, "")
+	in.doAssert("crash: only the target's names and the work area are touched", bystander, "")
+	for _, power := range []bool{false, true} {
+		tag := "kill"
+		if power {
+			tag = "powerloss"
+		}
+		cm := in.newCrashModel(trace, power, tag)
+		pre := ts.And(cm.cons...)
+		var oks []*Term
+		for _, t := range targets {
+			b0 := init[t]
+			fin := cm.finalBinding(baseID, t, b0)
+			b := cm.binding(baseID, t, b0)
+			// allowed: unchanged; or a complete new inode that is either the final one or (add/init) the empty reservation
+			alts := []*Term{ts.Eq(b, ts.Const(16, uint64(b0)))}
+			cands := map[int]bool{}
+			for _, e := range cm.effects {
+				if e.dir == baseID && e.name == t && e.val != b0 {
+					cands[e.val] = true
+				}
 			}
-			cm := in.newCrashModel(trace, power, tag)
-			pre := ts.And(cm.cons...)
-			var oks []*Term
+			ids := make([]int, 0, len(cands))
+			for id := range cands {
+				ids = append(ids, id)
+			}
+			sort.Ints(ids)
+			for _, id := range ids {
+				is := ts.Eq(b, ts.Const(16, uint64(id)))
+				switch {
+				case id == 0:
+					// the name disappears: legitimate only for remove / the old name of set-admin
+					if op == "remove" || op == "setadmin" {
+						alts = append(alts, is)
+					}
+				case id == fin:
+					alts = append(alts, ts.And(is, cm.complete(id)))
+				case !cm.hasChunks(id) && (op == "add" || op == "init"):
+					alts = append(alts, is) // empty reservation
+				}
+			}
+			oks = append(oks, ts.Or(alts...))
+		}
+		in.doAssert("crash("+tag+"): target is absent/reserved, old-complete or new-complete at every crash point", ts.Implies(pre, ts.And(oks...)), "")
+		if power && durable {
+			// C09: after the operation returned (k = m) the acknowledged effect is durable
+			after := ts.Eq(cm.k, ts.Const(16, uint64(cm.m)))
+			var dur []*Term
 			for _, t := range targets {
 				b0 := init[t]
 				fin := cm.finalBinding(baseID, t, b0)
 				b := cm.binding(baseID, t, b0)
-				// allowed: unchanged; or a complete new inode that is either the final one or (add/init) the empty reservation
-				alts := []*Term{ts.Eq(b, ts.Const(16, uint64(b0)))}
-				cands := map[int]bool{}
-				for _, e := range cm.effects {
-					if e.dir == baseID && e.name == t && e.val != b0 {
-						cands[e.val] = true
-					}
+				d := ts.Eq(b, ts.Const(16, uint64(fin)))
+				if fin != 0 {
+					d = ts.And(d, cm.complete(fin))
 				}
-				ids := make([]int, 0, len(cands))
-				for id := range cands {
-					ids = append(ids, id)
-				}
-				sort.Ints(ids)
-				for _, id := range ids {
-					is := ts.Eq(b, ts.Const(16, uint64(id)))
-					switch {
-					case id == 0:
-						// the name disappears: legitimate only for remove / the old name of set-admin
-						if op == "remove" || op == "setadmin" {
-							alts = append(alts, is)
-						}
-					case id == fin:
-						alts = append(alts, ts.And(is, cm.complete(id)))
-					case !cm.hasChunks(id) && (op == "add" || op == "init"):
-						alts = append(alts, is) // empty reservation
-					}
-				}
-				oks = append(oks, ts.Or(alts...))
+				dur = append(dur, d)
 			}
-			in.doAssert("crash("+tag+"): target is absent/reserved, old-complete or new-complete at every crash point", ts.Implies(pre, ts.And(oks...)), "")
-			if power && durable {
-				// C09: after the operation returned (k = m) the acknowledged effect is durable
-				after := ts.Eq(cm.k, ts.Const(16, uint64(cm.m)))
-				var dur []*Term
-				for _, t := range targets {
-					b0 := init[t]
-					fin := cm.finalBinding(baseID, t, b0)
-					b := cm.binding(baseID, t, b0)
-					d := ts.Eq(b, ts.Const(16, uint64(fin)))
-					if fin != 0 {
-						d = ts.And(d, cm.complete(fin))
-					}
-					dur = append(dur, d)
-				}
-				in.doAssert("durable: acknowledged "+op+" survives power loss", ts.Implies(ts.And(pre, after), ts.And(dur...)), "")
-			}
+			in.doAssert("durable: acknowledged "+op+" survives power loss", ts.Implies(ts.And(pre, after), ts.And(dur...)), "")
 		}
-		return nil
 	}
 }
